@@ -19,6 +19,7 @@ FEATURES = dict(
     proj=[False, True],
     commit=['mse', 'ce'],
     rotation=[True, False],
+    ln=[False, True],          # layernorm_after_project_in (built only when there is a projection)
 )
 
 
@@ -29,7 +30,7 @@ def to_kwargs(c):
     kw = dict(dim=d * heads + (1 if c['proj'] else 0), codebook_dim=d, heads=heads, separate_codebook_per_head=(c['heads'] == '2-separate'),
               codebook_size=6, decay=0.5, use_cosine_sim=(c['metric'] == 'cosine'), threshold_ema_dead_code=c['expiry'],
               kmeans_init=(c['init'] == 'kmeans'), kmeans_iters=2, rotation_trick=c['rotation'],
-              commitment_use_cross_entropy_loss=(c['commit'] == 'ce'))
+              commitment_use_cross_entropy_loss=(c['commit'] == 'ce'), layernorm_after_project_in=bool(c.get('ln')))
     if c['codebook'] == 'learnable':
         kw.update(learnable_codebook=True, ema_update=False)
     elif c['codebook'] == 'inplace-sgd':
